@@ -903,6 +903,105 @@ pub fn c11(eng: &mut Engine, rng: &mut Rng, thorough: bool, out: &mut Out) -> Ca
                 j["cred_def_id"] = json!(other.cid.0);
                 process("cred-def-id-string-changed", &j, sig_ghost(true, &cj["values"]), &meta1, &m1, holder, di, None, out, &mut cases);
             }
+            // --- the same in W3C form (`w3c::issuer::create_credential`, `w3c::prover::process_credential`) ---
+            {
+                use anoncreds::data_types::w3c::credential_attributes::{CredentialAttributeValue as V, CredentialSubject};
+                use anoncreds::types::{CredentialOffer, CredentialRequest, CredentialRequestMetadata};
+                let subj_for = |ns: &[String]| -> Vec<(String, V)> { ns.iter().enumerate().map(|(i, n)| (n.clone(), if i % 2 == 0 { V::Number(20 + i as i32) } else { V::String(format!("text {i}")) })).collect() };
+                let mk = |e: &[(String, V)]| -> CredentialSubject { let mut s = CredentialSubject::default(); for (k, v) in e { s.0.insert(k.clone(), v.clone()); } s };
+                let sj = |e: &[(String, V)]| -> Value { let mut a: Vec<Value> = e.iter().map(|(k, v)| json!([k, match v { V::String(s) => json!(s), V::Number(n) => json!(n), V::Bool(b) => json!(b) }])).collect(); a.sort_by(|x, y| x[0].as_str().cmp(&y[0].as_str())); Value::Array(a) };
+                let mut issue_w = |cls: &str, offer: &CredentialOffer, oj: &Value, req: &CredentialRequest, rg: Value, e: Vec<(String, V)>, expect: Option<bool>, out: &mut Out, cases: &mut Cases| -> Option<anoncreds::data_types::w3c::credential::W3CCredential> {
+                    // entries with the same key collapse in the map: the model gets what the library gets
+                    let subject = mk(&e);
+                    let given: Vec<(String, V)> = subject.0.iter().map(|(k, v)| (k.clone(), v.clone())).collect();
+                    let r = w3c::issuer::create_credential(&d.cd, &d.cdp, offer, req, subject, None, None);
+                    let ok = r.is_ok();
+                    out.count(&format!("c11:issue-w3c:{cls}:{}", if ok { "ok" } else { "refused" }));
+                    match expect {
+                        Some(true) if !ok => out.oracle_fail("honest W3C issuance refused", &json!({"fam":"c11.issue_w3c","sig":"","cls":cls}), &Value::Null),
+                        Some(false) if ok => out.oracle_fail("issuer signed a W3C credential although offer / request / attribute set do not match", &json!({"fam":"c11.issue_w3c","sig":"","cls":cls}), &Value::Null),
+                        _ => {}
+                    }
+                    cases.push((json!({"op":"issue_w3c","fam":"c11.issue_w3c","cls":cls,"cd":cdj,"offer_nonce":nonce_of(oj),"req":rg,"subject":sj(&given),"nt":true}), json!(ok)));
+                    r.ok()
+                };
+                let base = subj_for(&names);
+                let with = |extra: (&str, V)| -> Vec<(String, V)> { let mut e = base.clone(); e.push((extra.0.to_string(), extra.1)); e };
+                let wcred = issue_w("honest", &offer1, &o1, &req1, g1.clone(), base.clone(), Some(true), out, &mut cases);
+                issue_w("replayed-request-under-fresh-offer", &offer2, &o2, &req1, g1.clone(), base.clone(), Some(false), out, &mut cases);
+                issue_w("attribute-missing", &offer1, &o1, &req1, g1.clone(), base[..base.len() - 1].to_vec(), Some(false), out, &mut cases);
+                issue_w("attribute-extra-string", &offer1, &o1, &req1, g1.clone(), with(("extra", V::String("x".into()))), Some(false), out, &mut cases);
+                issue_w("attribute-extra-number", &offer1, &o1, &req1, g1.clone(), with(("extra", V::Number(1))), Some(false), out, &mut cases);
+                issue_w("attribute-extra-true", &offer1, &o1, &req1, g1.clone(), with(("extra", V::Bool(true))), Some(false), out, &mut cases);
+                issue_w("attribute-extra-false", &offer1, &o1, &req1, g1.clone(), with(("extra", V::Bool(false))), Some(false), out, &mut cases);
+                for b in [true, false] {
+                    let mut e = base.clone();
+                    e[0].1 = V::Bool(b);
+                    issue_w(&format!("schema-attribute-as-{b}"), &offer1, &o1, &req1, g1.clone(), e, Some(false), out, &mut cases);
+                }
+                let mut e = base.clone();
+                e[0].0 = format!("{}x", e[0].0);
+                issue_w("attribute-renamed", &offer1, &o1, &req1, g1.clone(), e, Some(false), out, &mut cases);
+                let e: Vec<(String, V)> = base.iter().map(|(k, v)| (variant(rng, k), v.clone())).collect();
+                issue_w("attributes-respelled", &offer1, &o1, &req1, g1.clone(), e, Some(true), out, &mut cases);
+                // holder side
+                if let Some(wc) = wcred {
+                    let honest: Vec<(String, V)> = wc.credential_subject.0.iter().map(|(k, v)| (k.clone(), v.clone())).collect();
+                    let Ok(as_legacy) = anoncreds::w3c::credential_conversion::credential_from_w3c(&wc) else { continue };
+                    let mut attrs: Vec<Value> = as_legacy.values.0.iter().map(|(k, v)| json!([norm(k), v.encoded])).collect();
+                    attrs.sort_by(|a, b| a[0].as_str().cmp(&b[0].as_str()));
+                    let sigw = |intact: bool| json!({"key": di, "attrs": attrs, "holder": holder, "blinding": b1, "nonce": nonce_of(&r1), "intact": intact});
+                    let mut process_w = |cls: &str, e: &[(String, V)], meta: &CredentialRequestMetadata, mg: &Value, h: usize, cdk: usize, expect: Option<bool>, out: &mut Out, cases: &mut Cases| {
+                        let mut c = wc.clone();
+                        c.credential_subject = mk(e);
+                        let given: Vec<(String, V)> = c.credential_subject.0.iter().map(|(k, v)| (k.clone(), v.clone())).collect();
+                        let cd_used = &w.defs[cdk];
+                        let ok = w3c::prover::process_credential(&mut c, meta, &eng.cast.holders[h], &cd_used.cd, None).is_ok();
+                        out.count(&format!("c11:process-w3c:{cls}:{}", if ok { "ok" } else { "rejected" }));
+                        match expect {
+                            Some(true) if !ok => out.oracle_fail("holder rejected a correctly issued W3C credential", &json!({"fam":"c11.process_w3c","sig":"","cls":cls}), &Value::Null),
+                            Some(false) if ok => out.oracle_fail("holder accepted a tampered or foreign W3C credential", &json!({"fam":"c11.process_w3c","sig":"","cls":cls}), &Value::Null),
+                            _ => {}
+                        }
+                        let cdg = json!({"id": cd_used.cid.0, "key": cdk, "attrs": cd_used.schema.attr_names.0});
+                        cases.push((json!({"op":"process_w3c","fam":"c11.process_w3c","cls":cls,"cd":cdg,"sig":sigw(true),"subject":sj(&given),"sig_proof_ok":true,"meta":mg,"holder":h,"nt":true}), json!(ok)));
+                    };
+                    process_w("honest", &honest, &meta1, &m1, holder, di, Some(true), out, &mut cases);
+                    process_w("other-link-secret", &honest, &meta1, &m1, 1 - holder, di, Some(false), out, &mut cases);
+                    process_w("other-metadata", &honest, &meta2, &m2, holder, di, Some(false), out, &mut cases);
+                    process_w("other-definition", &honest, &meta1, &m1, holder, oi, Some(false), out, &mut cases);
+                    let addw = |extra: (&str, V)| -> Vec<(String, V)> { let mut e = honest.clone(); e.push((extra.0.to_string(), extra.1)); e };
+                    process_w("entry-added-string", &addw(("vip", V::String("yes".into()))), &meta1, &m1, holder, di, Some(false), out, &mut cases);
+                    process_w("entry-added-number", &addw(("vip", V::Number(1))), &meta1, &m1, holder, di, Some(false), out, &mut cases);
+                    process_w("entry-added-true", &addw(("vip", V::Bool(true))), &meta1, &m1, holder, di, Some(false), out, &mut cases);
+                    process_w("entry-added-false", &addw(("vip", V::Bool(false))), &meta1, &m1, holder, di, Some(false), out, &mut cases);
+                    for (i, (k, v)) in honest.iter().enumerate() {
+                        let mut e = honest.clone();
+                        e[i].1 = match v { V::Number(n) => V::Number(n + 1), _ => V::String("changed".into()) };
+                        process_w("value-changed", &e, &meta1, &m1, holder, di, Some(false), out, &mut cases);
+                        let mut e = honest.clone();
+                        e[i].1 = V::Bool(true);
+                        process_w("value-replaced-by-true", &e, &meta1, &m1, holder, di, Some(false), out, &mut cases);
+                        // the same printed form in the other JSON type encodes the same: judged by the model
+                        let mut e = honest.clone();
+                        e[i].1 = match v { V::Number(n) => V::String(n.to_string()), V::String(s) => V::String(s.clone()), b => b.clone() };
+                        process_w("number-as-string", &e, &meta1, &m1, holder, di, None, out, &mut cases);
+                        let mut e = honest.clone();
+                        e.remove(i);
+                        process_w("entry-removed", &e, &meta1, &m1, holder, di, Some(false), out, &mut cases);
+                        let mut e = honest.clone();
+                        e[i].0 = k.to_uppercase();
+                        process_w("key-respelled", &e, &meta1, &m1, holder, di, None, out, &mut cases);
+                    }
+                    if honest.len() >= 2 {
+                        let mut e = honest.clone();
+                        let t = e[0].1.clone();
+                        e[0].1 = e[1].1.clone();
+                        e[1].1 = t;
+                        process_w("values-swapped", &e, &meta1, &m1, holder, di, Some(false), out, &mut cases);
+                    }
+                }
+            }
         }
     }
     cases
